@@ -91,7 +91,7 @@ def _isinstance_branch(f):
 
 
 def rule_r2(rep, program: Program):
-    r = rep.rule("R2", "LogRepFloat operator table: log-space operation, argument order and comparison operator per dunder; LogRepFloat path stays in log space; zero guarded before log", floor=13)
+    r = rep.rule("R2", "LogRepFloat operator table: log-space operation, argument order and comparison operator per dunder; LogRepFloat path stays in log space; zero guarded before log", floor=19)
     k = program.cls("LogRepFloat")
     for name, (kind, what) in LOGOPS.items():
         f = k.methods.get(name)
@@ -174,6 +174,30 @@ def rule_r2(rep, program: Program):
             good = isinstance(e, ast.Compare) and len(e.ops) == 1 and isinstance(e.ops[0], op) and norm(e.left) == la and norm(e.comparators[0]) == lb
             if not good:
                 r.violate(PROP, f"LogRepFloat.{name}:{which}:{norm(e) if e is not None else None}", f"{name} ({which} branch) evaluates `{norm(e) if e is not None else None}` instead of `{la} {op.__name__} {lb}`: comparisons do not order values as their real counterparts", node=e or f.node, file=f.file)
+    # reflected / unary operators
+    forms = {
+        "__radd__": ("self.__add__({o})", "self + {o}", "{o} + self.val", "self.val + {o}"),
+        "__rmul__": ("self.__mul__({o})", "self * {o}", "{o} * self.val", "self.val * {o}"),
+        "__rtruediv__": ("{o} / self.val",),
+        "__rsub__": ("(-self).__radd__({o})", "{o} - self.val", "{o} + -self.val", "-self.val + {o}"),
+        "__neg__": ("-self.val",),
+    }
+    for name, alts in forms.items():
+        f = k.methods.get(name)
+        if f is None:
+            raise AnalysisError(f"LogRepFloat.{name} not found")
+        o = f.params[1] if len(f.params) > 1 else ""
+        rets = [n for n in ast.walk(f.node) if isinstance(n, ast.Return)]
+        got = norm(rets[0].value) if len(rets) == 1 else None
+        r.inst({"dunder": name, "returns": got})
+        if got not in {a.format(o=o) for a in alts}:
+            r.violate(PROP, f"LogRepFloat.{name}:{got}", f"{name} returns `{got}`, which is not the reflected/unary image of the real operation ({alts[0].format(o=o)})", node=f.node, file=f.file)
+    # val: exp with overflow mapped to inf
+    f = k.methods["val"]
+    ex = [n for n in ast.walk(f.node) if isinstance(n, ast.Call) and norm(n.func) in ("exp", "math.exp", "np.exp")]
+    r.inst({"val": [norm(x) for x in ex]})
+    if not ex or norm(ex[0].args[0]) != "self.log_val":
+        r.violate(PROP, "LogRepFloat.val:not-exp", "the linear value is not exp(log_val)", node=f.node, file=f.file)
     # constructor: zero -> -inf, positive -> log
     f = k.methods["__init__"]
     logs = [n for n in ast.walk(f.node) if isinstance(n, ast.Call) and norm(n.func) == "log"]
